@@ -407,3 +407,11 @@ PROP = with_src(C03(), share=8, functions=[
                           "Src.Specifier._compare_not_equal_translated", "Src.Specifier._compare_compatible_translated",
                           "Src._BaseVersion.__ne___translated", "Src._BaseVersion.__ne___eq_model",
                           "Src._BaseVersion.__ne___other"])
+# x7: `Specifier.__contains__` (= contains with the default prereleases), the reflective `_get_operator` as a function of its own
+# (the bound `_compare_*` method the class table `_operators` names; S.getOperator) and `Specifier.__repr__` (ASCII text)
+PROP = with_src(PROP, share=8,
+                functions=["Specifier.__contains__", "Specifier._get_operator", "Specifier.__repr__"],
+                module=["PkgProofs.Props.Src.X7Spec"],
+                theorems=["Src.Specifier.__contains___translated", "Src.Specifier.__contains___eq_model",
+                          "Src.Specifier._get_operator_translated", "Src.Specifier._get_operator_eq_model", "Src.getOperator_op",
+                          "Src.Specifier.__repr___translated", "Src.Specifier.__repr___eq_model"])
